@@ -214,7 +214,7 @@ def gen_policy(rng, wf, kind='complete', opts=None):
         oc = {'custom': [c + c for c in p['custom']], 'p_custom': 1.0, 'p_fail': 0.0,
               'exec_retries': p['exec_retries'], 'sub_retries': p['sub_retries'],
               'p_retry_fail': 0.6}
-        if kind in ('complete', 'cmd', 'cmdtrigc', 'set', 'cmdrmc', 'cmdrmr', 'cmdrl', 'qc', 'cmdqc'):   # ('cmdtrigc': C28, 'set': C29/C08S, 'cmdrm*': C30, 'cmdrl': C27, additive)
+        if kind in ('complete', 'cmd', 'cmdtrigc', 'set', 'cmdrmc', 'cmdrmr', 'cmdrl', 'qc', 'cmdqc', 'crash', 'cmdcrash'):   # ('cmdtrigc': C28, 'set': C29/C08S, 'cmdrm*': C30, 'cmdrl': C27, additive)
             if p['opt_fail']:
                 oc['p_fail'] = 0.4
             # optional custom outputs may be skipped; required ones are always produced
@@ -306,6 +306,22 @@ def gen_policy(rng, wf, kind='complete', opts=None):
             'release_hold_point', 'reload', 'pause', 'resume', 'reload', 'stop_point', 'stop_clean', 'stop_now']
         pol['p_cmd'] = (opts or {}).get('p_reload') or {0.4: 0.12, 0.6: 0.2, 0.8: 0.3}.get(pol.get('p_msg'), 0.2)
         pol['inst_off'] = True          # instance graph also for off-sequence points (see runner.extract_graph)
+    if kind in ('crash', 'crashany', 'cmdcrash', 'cmdcrashany'):
+        # C20 (additive; new kinds, drawn after everything else): the scheduler is killed 1-4 times per run - between
+        # ops (k = -1) or inside a main loop at its k-th database commit boundary, before the transaction (j null) or
+        # inside it (after j statements, at the latest right before COMMIT) - and restarted from the database;
+        # 'crash': complete outcomes, 'crashany': failures / noise as in 'any'; 'cmdcrash*': with holds, stop
+        # point / task, pause and clean stop + restart as well.  opts['crash_loops']: the range of main-loop
+        # numbers the kill points are drawn from
+        lo, hi = (opts or {}).get('crash_loops') or (1, 16)
+        n = rng.choice([1, 2, 2, 3, 4])
+        loops = sorted(rng.sample(range(lo, hi + 1), min(n, hi - lo + 1)))
+        pol['crash_plan'] = [[L, rng.choice([-1, 0, 0, 0, 1, 1, 1, 2, 2, 3]), rng.choice([None, None, 0, 1, 2, 5])]
+                             for L in loops]
+        if kind.startswith('cmdcrash'):
+            pol['cmds'] = ['hold', 'release', 'hold', 'release', 'set_hold_point', 'release_hold_point',
+                           'stop_point', 'stop_task', 'stop_clean', 'stop_now', 'pause', 'resume']
+            pol['p_cmd'] = 0.12
     return pol
 
 
@@ -315,6 +331,10 @@ def seed_mod3(pol):
 
 
 def gen_case(seed: int, kind='complete', opts=None):
+    if kind.startswith('exp'):
+        # C32 (additive): datetime cycling + clock-expire tasks + virtual clock (kinds exp / expany / expcmd / exptrig)
+        import gendt
+        return gendt.gen_case(seed, kind, opts)
     rng = random.Random(seed)
     if kind in ('qc', 'qa', 'cmdq', 'cmdqc'):
         # C05S (additive): the queue kinds generate workflows with limited internal queues
